@@ -207,7 +207,13 @@ def gen_cases(rng, n):
                 # make hits likely: pick times where the first log shows the target
                 hit = [t for t, s in enumerate(logs[0]) if s == logs[0][0]]
                 target = logs[0][0] if (logs[0][0] in ([0, 1, 2, -1] if k in ("task", "component") else [0, 1])) else target
-                times = rng.sample(hit, min(len(hit), rng.choice([1, 2])))
+                times = rng.sample(hit, min(len(hit), rng.choice([1, 2, 3, 4])))
+                if len(hit) >= 2 and rng.random() < 0.5:
+                    # first and last time hit the target, the ones in between are arbitrary
+                    lo, hi = min(hit), max(hit)
+                    mid = [rng.randrange(lo, hi + 1) for _ in range(rng.choice([1, 2, 3]))]
+                    times = [lo] + mid + [hi]
+                    rng.shuffle(times)
             cases.append({"fam": "extract", "kind": k, "logs": logs, "target": target, "times": times})
         else:
             cases.append({"fam": "last", "last": rng.randrange(0, 10 ** 9), "unit": rng.choice([1, 60, 3600, 86400, 7]),
